@@ -33,8 +33,9 @@ DocCls == {"none", "good", "warn", "fatal"}
 
 VARIABLES tid, l,                 \* file mode: trace id, events consumed
           n, fault, doc, W,       \* the project (enum mode; in file mode n and W come from the trace header)
+          imp,                    \* enum mode: imp[i] = the module that the first statement of module i imports (0: none)
           phase, mstate, stack, reported, pages, viol, perr, events, code
-vars == <<tid, l, n, fault, doc, W, phase, mstate, stack, reported, pages, viol, perr, events, code>>
+vars == <<tid, l, n, fault, doc, W, imp, phase, mstate, stack, reported, pages, viol, perr, events, code>>
 
 ExitCode(w, violations, parseErrors) == IF w /\ violations THEN 3 ELSE IF parseErrors THEN 2 ELSE 0
 
@@ -44,15 +45,20 @@ InitEnum == /\ Source = "enum" /\ tid = 0 /\ l = 0
             /\ doc \in [1..n -> DocCls]
             /\ \A i \in 1..n : fault[i] # "ok" => doc[i] = "none"
             /\ W \in BOOLEAN
+            \* imports between the modules (also of / from a file that does not parse, also circular); the docstring lattice and
+            \* the import shapes are explored separately
+            /\ imp \in [1..n -> 0..n]
+            /\ \A i \in 1..n : imp[i] # i
+            /\ ((\E i \in 1..n : imp[i] # 0) => \A i \in 1..n : doc[i] = "none")
 InitFile == /\ Source = "file" /\ tid \in 1..Len(Traces) /\ l = 0
             /\ n = Traces[tid].n /\ W = Traces[tid].W
-            /\ fault = <<>> /\ doc = <<>>
+            /\ fault = <<>> /\ doc = <<>> /\ imp = <<>>
 Init == /\ (InitEnum \/ InitFile)
         /\ phase = "start" /\ mstate = [i \in 1..n |-> "UNPROCESSED"] /\ stack = <<>>
         /\ reported = {} /\ pages = {} /\ viol = FALSE /\ perr = FALSE /\ events = <<>> /\ code = -1
 
 Ev(k, m) == [k |-> k, m |-> m]
-Keep == UNCHANGED <<n, fault, doc, W, tid>>
+Keep == UNCHANGED <<n, fault, doc, W, imp, tid>>
 Emit(e) == events' = Append(events, e)
 
 \* ---- the life cycle, one action per event kind
@@ -98,7 +104,11 @@ WarnAny == \E i \in 1..n : doc[i] \in {"warn", "fatal"}
 FatalAny == \E i \in 1..n : doc[i] = "fatal"
 EnumEvent ==
   CASE phase = "start" -> Ev("discover", n)
-    [] phase = "process" /\ stack # <<>> -> IF fault[stack[Len(stack)]] = "ok" THEN Ev("finish", stack[Len(stack)]) ELSE Ev("parse_failed", stack[Len(stack)])
+    [] phase = "process" /\ stack # <<>> ->
+          LET t == stack[Len(stack)] IN
+          IF fault[t] # "ok" THEN Ev("parse_failed", t)                                   \* nothing of the file is executed
+          ELSE IF imp[t] # 0 /\ mstate[imp[t]] = "UNPROCESSED" THEN Ev("start", imp[t])   \* on demand, nested in t
+          ELSE Ev("finish", t)
     [] phase = "process" /\ stack = <<>> /\ (\E u \in 1..n : mstate[u] = "UNPROCESSED") -> Ev("start", NextToProcess)
     [] phase = "process" /\ stack = <<>> /\ ~(\E u \in 1..n : mstate[u] = "UNPROCESSED") -> Ev("postprocess", 0)
     [] phase = "post" -> Ev("summary", 0)
@@ -125,7 +135,7 @@ AlwaysEnds == <>Exited
 
 \* ---- emission / acceptance
 EmitEnum == (Source = "enum" /\ Exited) =>
-              PrintT(ToJson([n |-> n, fault |-> fault, doc |-> doc, W |-> W, events |-> events, code |-> code]))
+              PrintT(ToJson([n |-> n, fault |-> fault, doc |-> doc, W |-> W, imp |-> imp, events |-> events, code |-> code]))
 Accept == (Source = "file" /\ Exited /\ l = Len(Traces[tid].ev)) => TLCSet(1, TLCGet(1) \cup {tid})
 Post == Source = "file" => PrintT(ToJson([accepted |-> SetToSeq(TLCGet(1))]))
 =============================================================================
